@@ -4,7 +4,9 @@ import BV.Props.C02
 import BV.Props.C03
 import BV.Props.C04
 import BV.Props.C05
+import BV.Props.C06
 import BV.Props.C07
+import BV.Props.C08
 import BV.Props.C15
 import BV.Props.C16
 import BV.Props.C18
